@@ -302,6 +302,17 @@ func init() {
 		c.set(p)
 		return nil, false
 	})
+	reg("JSONBodyMistyped", func(c *icall) ([]*State, bool) {
+		iv := c.args[0].(IfaceV)
+		val, typ := iv.V, iv.Typ
+		if p, ok := val.(PtrV); ok {
+			val = c.s.load(p)
+			typ = typ.(*types.Pointer).Elem()
+		}
+		p := c.s.alloc(BlobV{Kind: "json", Val: val, Typ: typ, Bad: "false", Mis: true})
+		c.set(SliceV{p.Obj, 0, -1, -1})
+		return nil, false
+	})
 	reg("JSONBody", func(c *icall) ([]*State, bool) {
 		iv := c.args[0].(IfaceV)
 		bad := c.args[1].(BoolV).T
